@@ -29,9 +29,19 @@ PARTIAL = ['C06_prefix (the nodes parsed before the first strict error are still
            'whitespace when the document has no trailing whitespace; needs ctx_wf: the result is a node list that begins with '
            'the document\'s settled nodes = tree_of minus a text run still pending at the end, which the continuation may '
            'extend: C06_tree_settled_partial, example C06_prefix_trailing_run), C06_collector_keeps_nodes (every tolerant '
-           'collector, any input: pushed nodes are never dropped). Valid content outside the core grammar (environments, '
-           'optional / star arguments, specials, verbatim) or nested inside an unfinished construct is covered by the '
-           'correspondence of the exact tolerant trees and by the conservative oracle only',
+           'collector, any input: pushed nodes are never dropped). For valid content that is a document of the EXTENDED grammar '
+           '(Doc/DocGrammar2.v: environments, specials, optional / star / single-token / verbatim arguments, verbatim) only the '
+           'stray-closing-token theorem is lifted: C06_prefix_closing2_partial / C06_prefix_closing2_items_partial (document, '
+           'then a stray } / \\) / \\] / \\end{x}, then ANY garbage: the tolerant result is EXACTLY the document\'s node list '
+           'tree_of2, reader right after the token), under the hypothesis ok_doc2_before: the document is well formed IN FRONT '
+           'OF what is appended (the side conditions of the extended grammar look at the follow string; ok_doc2 alone is not '
+           'enough: C06_prefix2_follow_needed, a final comment without newline swallows the token; it IS enough for a document that '
+           'ends with whitespace in a context whose specials sequences contain no backslash / closing brace: '
+           'C06_prefix_closing2_ws_partial, C06_follow_extension_partial); it rests on two '
+           'grammar-independent theorems about every string / context / state: C06_own_error_is_the_collectors and '
+           'C06_collector_error_reproduced (a strict collector\'s own rejection of a token is reproduced verbatim by the '
+           'tolerant collector). Arbitrary continuations of extended documents, and valid content nested inside an unfinished '
+           'construct, are covered by the correspondence of the exact tolerant trees and by the conservative oracle only',
            'C06_terminates / C06_total need ctx_wf (at most 10 argument slots per spec): the fixed fuel of the model; '
            'C06_fuel_enough gives the bound for every context']
 REFUTED = []
